@@ -205,3 +205,138 @@ def install_walker_specs(E):
     """loop specs of the two sub-element walkers for arbitrary input (used when they run inside _iso8583_to_field)"""
     E.loop_specs[(Q + '_pds_to_dict', 0)] = PdsWalkAny()
     E.loop_specs[(Q + '_icc_to_dict', 0)] = IccWalkAny()
+
+
+# ------------------------------------------------------------------ _pds_to_de over ANY number of sub-elements (C12)
+TAGV = z3.Function('PDS_TAGV', z3.IntSort(), z3.IntSort())          # tag of the j-th smallest key (0..9999, strictly ascending)
+IOFF = z3.Function('PDS_IOFF', z3.IntSort(), z3.IntSort())          # offset of item j in the concatenation of all items
+IVLEN = z3.Function('PDS_IVLEN', z3.IntSort(), z3.IntSort())        # value length of item j
+IVALC = z3.Function('PDS_IVALC', z3.IntSort(), z3.IntSort(), z3.IntSort())
+CUTS = z3.ArraySort(z3.IntSort(), z3.IntSort())
+
+
+def item_hyp(j, m):
+    """hypotheses about item j of the input set (instantiated where needed)"""
+    return z3.Implies(z3.And(j >= 0, j < m),
+                      z3.And(TAGV(j) >= 0, TAGV(j) <= 9999, IVLEN(j) >= 0, IVLEN(j) <= 992, IOFF(j + 1) == IOFF(j) + 7 + IVLEN(j), IOFF(j) >= 0,
+                             IOFF(j + 1) <= IOFF(m)))
+
+
+def all_items(E, m):
+    """ALL = item(0) ++ item(1) ++ ... : tag(4 digits) len(3 digits) value, facts instantiated at E.ghost['pack_inst']"""
+    E.ghost.setdefault('pack_inst', [])
+
+    def elem_fact(e, p):
+        fs = []
+        for j in E.ghost['pack_inst']:
+            k = p - IOFF(j)
+            t, vl = TAGV(j), IVLEN(j)
+            hdr = z3.If(k == 0, 48 + (t / 1000) % 10, z3.If(k == 1, 48 + (t / 100) % 10, z3.If(k == 2, 48 + (t / 10) % 10, z3.If(k == 3, 48 + t % 10,
+                  z3.If(k == 4, 48 + (vl / 100) % 10, z3.If(k == 5, 48 + (vl / 10) % 10, 48 + vl % 10))))))
+            fs.append(z3.Implies(z3.And(j >= 0, j < m, p >= IOFF(j), p < IOFF(j + 1)), e == z3.If(k < 7, hdr, IVALC(j, k - 7))))
+        return z3.And(*fs) if fs else z3.BoolVal(True)
+    return E.fresh_seq('str', 'ALLITEMS', elem_fact=elem_fact)
+
+
+class PdsPackLoop:
+    """`for key in keys` of _pds_to_de.  ghosts: q = carriers closed so far, s = first item of the open carrier, CUT[c] = first item
+    of carrier c; c* (self.G['cstar']) is an arbitrary closed carrier (skolem for the per-carrier clauses)"""
+    ghosts = ['q', 's', 'CUT']
+    ghost_sorts = {'CUT': CUTS}
+
+    def __init__(self, G):
+        self.G = G
+
+    def entry(self, ctx):
+        return {'q': z3.IntVal(0), 's': z3.IntVal(0), 'CUT': z3.K(z3.IntSort(), z3.IntVal(0))}
+
+    def step(self, ctx, g):
+        E = ctx.E
+        i = g['i']
+        nq = E.list_val(ctx.now('outputs')).n
+        flushed = nq == g['q'] + 1
+        return {'q': nq, 's': z3.If(flushed, i, g['s']), 'CUT': z3.If(flushed, z3.Store(g['CUT'], g['q'] + 1, i), g['CUT'])}
+
+    def side(self, ctx, g):
+        i, q, s, CUT = g['i'], g['q'], g['s'], g['CUT']
+        c = self.G['cstar']
+        per_carrier = z3.Implies(z3.And(c >= 0, c < q),
+                                 z3.And(CUT[c] >= 0, CUT[c] < CUT[c + 1], CUT[c + 1] <= s, CUT[c + 1] < self.G['m'],
+                                        IOFF(CUT[c + 1]) - IOFF(CUT[c]) <= 999,                       # carrier holds at most 999 characters
+                                        IOFF(CUT[c + 1] + 1) - IOFF(CUT[c]) > 999))                   # greedy: the next item did not fit
+        return [q >= 0, s >= 0, s <= i, CUT[0] == 0, CUT[q] == s, z3.Implies(q == 0, s == 0), IOFF(i) - IOFF(s) <= 999,
+                z3.Implies(q > 0, s > CUT[q - 1]), z3.Implies(s < i, IOFF(i) > IOFF(s)), per_carrier]
+
+    def facts(self, ctx, g):
+        i, m = g['i'], self.G['m']
+        ctx.E.ghost['pack_inst'] = [i]
+        c = self.G['cstar']
+        CUT = g['CUT']
+        return [item_hyp(i, m), item_hyp(g['s'], m), item_hyp(i - 1, m), z3.Implies(i > 0, IOFF(i) == IOFF(i - 1) + 7 + IVLEN(i - 1)),
+                item_hyp(CUT[c + 1], m), item_hyp(CUT[c], m)]
+
+    def state(self, ctx, g):
+        E = ctx.E
+        i, q, s, CUT = g['i'], g['q'], g['s'], g['CUT']
+        ALL = self.G['ALL']
+        outs = VSeq('list', q, lambda c, CUT=CUT: seq_slice(ALL, IOFF(CUT[I(c)]), IOFF(CUT[I(c) + 1]), E.decide))
+        return {'output': seq_slice(ALL, IOFF(s), IOFF(i), E.decide), 'outputs': outs}
+
+
+@unit('_pds_to_de/any-number-of-sub-elements', props=['C12', 'C01', 'C02'], functions=[Q + '_pds_to_de'])
+def u_pack_any(E):
+    """ANY set of sub-elements (distinct 4-digit tags, values of 0..992 characters): the carriers are the greedy partition of the
+    items in ascending tag order - each at most 999 characters, closed only when the next item does not fit, no item split,
+    none empty, concatenated = all items"""
+    m = E.fresh_int('m')
+    E.assume(m >= 1)
+    ALL = all_items(E, m)
+    E.assume(IOFF(0) == 0)
+    E.assume(ALL.n == IOFF(m))
+    cstar = E.fresh_int('cstar')
+
+    def sorted_key(j):
+        items = [80, 68, 83] + [48 + (TAGV(j) / 1000) % 10, 48 + (TAGV(j) / 100) % 10, 48 + (TAGV(j) / 10) % 10, 48 + TAGV(j) % 10]
+        k = seq_items('str', items)
+        k.tag = ('pdskey', j)
+        return k
+
+    def value(j):
+        E.fact(z3.And(IVLEN(j) >= 0, IVLEN(j) <= 992))
+        return VSeq('str', IVLEN(j), lambda k, j=j: IVALC(j, I(k)))
+    G = {'m': m, 'ALL': ALL, 'cstar': cstar, 'value': value}
+    G['sorted'] = VSeq('list', m, lambda j: sorted_key(I(j)))
+    msg = E.new_cell({'__kind__': 'dict', 'val': MI.PdsMsg(G)})
+    E.loop_specs[(Q + '_pds_to_de', 0)] = PdsPackLoop(G)
+    E.native_input({'kind': 'pds', 'lens': [VInt(IVLEN(z3.IntVal(0))), VInt(IVLEN(z3.IntVal(1)))]})
+    E.fact(item_hyp(m - 1, m))
+    E.fact(item_hyp(z3.IntVal(0), m))
+    out = E.list_val(E.call(Q + '_pds_to_de', msg))
+    tag = '_pds_to_de[any number]'
+    g = E.ghost.get('loop_ghosts', {}).get('iso8583._pds_to_de#loop0')
+    if g is None:
+        E.prove(tag + '/loop-exit-reached', False, 'I')
+        return
+    q, s, CUT = g['q'], g['s'], g['CUT']
+    E.prove(tag + '/all-items-consumed', g['i'] == m, 'I')
+    E.prove(tag + '/carrier-count', out.n == q + z3.If(s < m, 1, 0), 'P')
+    c = cstar                                   # an arbitrary closed carrier
+    E.assume(z3.And(c >= 0, c < q))
+    E.assume(c < out.n)
+    E.fact(item_hyp(CUT[c], m))
+    E.fact(item_hyp(CUT[c + 1], m))
+    car = out.at(c)
+    lo, hi = IOFF(CUT[c]), IOFF(CUT[c + 1])
+    E.prove_value_eq(tag + '/carrier-c-holds-whole-items-CUT[c]..CUT[c+1]-1-in-order', car, seq_slice(ALL, lo, hi, E.decide), 'P')
+    E.prove(tag + '/carrier-c-at-most-999', car.n <= 999, 'P')
+    E.prove(tag + '/carrier-c-not-empty', car.n > 0, 'P')
+    E.prove(tag + '/carrier-c-closed-only-when-the-next-item-does-not-fit', car.n + (7 + IVLEN(CUT[c + 1])) > 999, 'P')
+    E.prove(tag + '/carriers-are-consecutive-runs-of-items', z3.And(CUT[0] == 0, CUT[c] < CUT[c + 1], CUT[c + 1] <= s, CUT[q] == s), 'P')
+    # the last (open) carrier
+    if E.branch(s < m):
+        last = out.at(q)
+        E.prove_value_eq(tag + '/last-carrier-holds-items-s..m-1', last, seq_slice(ALL, IOFF(s), IOFF(m), E.decide), 'P')
+        E.prove(tag + '/last-carrier-at-most-999', last.n <= 999, 'P')
+        E.prove(tag + '/last-carrier-not-empty', last.n > 0, 'P')
+    else:
+        E.prove(tag + '/nothing-left-over', s == m, 'P')
